@@ -519,7 +519,7 @@ def _t(old, new, count=1):
 
 
 C06_ADJUDICATED = {
-    "basics/stmt_def_use_analysis.py::StmtDefUseAnalysis.analyze_and_save_call_stmt_args::named_args_info::break under `index >= len(named_symbol_list)`":
+    "basics/stmt_def_use_analysis.py::StmtDefUseAnalysis.analyze_and_save_call_stmt_args::`named_args_info`::break under `index >= len(named_symbol_list)`":
         "bound check: there is no symbol behind the index, nothing to contribute",
 }
 
